@@ -766,7 +766,8 @@ impl Executor for InstExec {
                 let st = self.state_line();
                 take_lock_trace();
                 let body = if items.is_empty() { "-".to_string() } else { items.join(" ; ") };
-                format!("{body}{extra} | R ok | {st}")
+                let lt = if self.last_lock_trace.is_empty() { "-".to_string() } else { self.last_lock_trace.clone() };
+                format!("{body}{extra} | R ok | {st} | L {lt}")
             }
         }
     }
